@@ -107,6 +107,15 @@ func main() {
 		record(run, sc, &res)
 	}
 
+	// API calls with dead / expiring contexts between ordinary traffic: no stall afterwards
+	for i, n := 0, run.Pick(30, 400); i < n && unexpected < 3; i++ {
+		r := run.Rand.Fork()
+		c := bk.GenCfg(r, bk.Backends)
+		sc := bk.GenDeadCalls(r, next(), c)
+		res := execute(sc)
+		record(run, sc, &res)
+	}
+
 	rounds := run.Pick(1500, 20000)
 	procs := []int{runtime.NumCPU(), 1, 2, 4}
 	for i := 0; i < rounds && unexpected < 3; i++ {
